@@ -362,17 +362,50 @@ def case_single(ctx, rng):
 
 
 def case_program(ctx, rng):
+    """Lock-step programs: the lazy pipeline never synchronises, the eager pipeline is
+    re-synchronised by the harness after every step; compared after each step. Steps come
+    from the dedicated table above and from the full operation table of symv/program.py."""
+    from symv.program import Program, deep_twin
+
     sr = ctx.sr
     L, exact = make_lazy(ctx, rng)
     E = twin(sr, L)
     wit = {"x0": describe(L, True), "steps": []}
     nsteps = rng.randint(4, 20)
+    prog = None
     for step in range(nsteps):
-        if not is_array(L) or L.ndim > 5:
+        if not is_array(L) or L.ndim > 5 or not L.blocks:
             break
-        name, f, tol = build_op(ctx, rng, L)
-        if tol is None and not exact:
-            tol = 1e-9
+        use_table = rng.random() < 0.5
+        if use_table:
+            if prog is None:
+                dtype = str(next(iter(L.blocks.values())).dtype)
+                prog = Program(ctx, rng, sym=R.symname(L), fermionic=True, dtype=dtype, values="int" if exact else "gauss", kind="static" if type(L).static_symmetry else "generic_str")
+            prog.pool = [L]
+            st = prog.pick()
+            if st is None:
+                break
+            name, operands, f0, info = st
+            if name.startswith(GAUGE) or not any(v is L for v in operands):
+                continue
+            pos = [k for k, v in enumerate(operands) if v is L]
+            others = list(operands)
+            inpl = bool(info.get("inplace"))
+
+            def f(a, f0=f0, others=others, pos=pos, inpl=inpl):
+                if inpl:
+                    a = deep_twin(a)
+                args = list(others)
+                for k in pos:
+                    args[k] = a
+                return f0(*args)
+
+            tol = None if exact else 1e-9
+            name = "table:" + name
+        else:
+            name, f, tol = build_op(ctx, rng, L)
+            if tol is None and not exact:
+                tol = 1e-9
         wit["steps"].append(name)
         r = issue(ctx, name, f, tol, L, E, wit, "programs")
         if r is None:
@@ -386,7 +419,7 @@ def case_program(ctx, rng):
             rl, re_ = cand[0]
         if not (is_array(rl) and getattr(rl, "fermionic", False)):
             continue
-        if not rl.blocks:
+        if not rl.blocks or any(np.asarray(b).dtype.kind == "b" for b in rl.blocks.values()):
             break
         L, E = rl, twin(sr, re_)
         if max((ix.size_total for ix in L.indices), default=1) > 64:
